@@ -112,7 +112,9 @@ def handle (st : DState) (j : Json) : D (DState × Json) := do
   | "collect" =>
     let d ← document (← field j "doc")
     let parents ← listOf nat (← field j "parents")
-    let sets := allSelectionSets d
+    let sets := match j.getObjVal? "sets" with
+      | .ok (.str "operations") => d.filterMap fun (x : Gql.Definition) => match x with | Gql.Definition.op o => some o.sel | Gql.Definition.frag _ => none
+      | _ => allSelectionSets d
     let res := sets.flatMap fun sel => parents.filterMap fun p =>
       (st.schema.typeByName p).map fun t =>
         let c := collectFields st.schema d t sel
@@ -126,7 +128,7 @@ def handle (st : DState) (j : Json) : D (DState × Json) := do
     let hk ← field j "hooks"
     let probe (k : String) : D (Option Probe) := do
       match hk.getObjVal? k with
-      | .ok (.arr a) => pure (some ⟨← nat (← at' a 0), ← nat (← at' a 1), ← nat (← at' a 2)⟩)
+      | .ok (.arr a) => pure (some ⟨← nat (← at' a 0), ← nat (← at' a 1), ← nat (← at' a 2), a.size > 3⟩)
       | _ => pure none
     let pDef ← probe "definition"
     let pOp ← probe "operation"
